@@ -1,6 +1,7 @@
 import Driver.Util
 import Driver.C07
 import RxnModel.Model.Compaction
+import RxnModel.Generated.Facts
 /-!
 Driver section for C18.
 
@@ -97,6 +98,14 @@ def addTbl (st : St) (lvl : Nat) (r : Run) : St :=
 def field (pfx : String) (ws : List String) : Option String :=
   (ws.filterMap fun w => if w.startsWith pfx then some (w.drop pfx.length).toString else none).head?
 
+/-- tables of equal age (possible only across checkpoint sources) are listed by id: their order is immaterial.
+The input is already age-sorted, so sorting by (age, id) only arranges the ties. -/
+def insertAgeId (t : Tbl) : List Tbl → List Tbl
+  | [] => [t]
+  | x :: xs => if age t < age x || (age t == age x && t.id ≤ x.id) then t :: x :: xs else x :: insertAgeId t xs
+
+def tieById (l : List Tbl) : List Tbl := l.foldr insertAgeId []
+
 def stepDirect (st : St) (op hint : List String) : St × String :=
   match op with
   | "w" :: _ => (st, "ok")
@@ -161,6 +170,15 @@ def stepDirect (st : St) (op hint : List String) : St × String :=
       (st, if r1 && r2 && r3 && r4 && r5 && r6 then "safe" else
         "not-safe family@compute=" ++ toString r1 ++ " family@apply=" ++ toString r2 ++ " test@compute=" ++ toString r3 ++
           " test@apply=" ++ toString r4 ++ " validBefore=" ++ toString r5 ++ " keyAge=" ++ toString r6)
+  | ["cfg"] =>
+    (st, "levels=" ++ toString Facts.dkvLevelCount ++ " l0=" ++ toString Facts.dkvDefaultL0Trigger ++ " amp=" ++
+      toString Facts.dkvMaxSizeAmpPercent)
+  | ["ages"] =>
+    (st, joinWith "/" (st.L.map fun l =>
+      if l.isEmpty then "-" else joinWith "," (l.map fun t => toString t.id ++ ":" ++ toString (age t))))
+  | ["agesort"] =>
+    (st, joinWith "/" (st.L.map fun l =>
+      if l.isEmpty then "-" else joinWith "," ((tieById (sortByAge l)).map fun t => toString t.id)))
   | ["pick"] => (st, st.predicted)
   | ["layout"] => (st, showLayout st.L)
   | _ => (st, "bad-op")
